@@ -427,7 +427,7 @@ class Canon:
         return base + p
 
 
-def parse_trace(path, canon):
+def parse_trace(path, canon, injected=None):
     """-> (done: canonical mutating calls that completed, in log order; killed: the canonical call the
     kill preceded or None; raw killed line; per-(pid,syscall) invocation counts with the mutating ones)"""
     try:
@@ -435,6 +435,7 @@ def parse_trace(path, canon):
     except OSError:
         return [], None, None, []
     done, killed, killed_raw = [], None, None
+    killed_is_injected = False
     counters, points = {}, []
     for pid, rest in join_unfinished(lines):
         m = re.match(r"^(\w+)\((.*)\)\s*=\s*(.*)$", rest)
@@ -444,9 +445,16 @@ def parse_trace(path, canon):
         k = counters.get((pid, name), 0) + 1
         counters[(pid, name)] = k
         if ret.startswith("?"):
-            # the injected call: canonicalise as if it had succeeded
+            # a call that was in flight when the process died.  SIGKILL leaves one such line per thread:
+            # the call the kill preceded is the one of the injected syscall (the others are threads blocked
+            # in futex / read / openat at that moment); canonicalise it as if it had succeeded
+            if injected is not None and name != injected and killed_is_injected:
+                continue
+            if injected is not None and name != injected and name in ("futex", "read", "poll", "epoll_wait", "nanosleep", "clock_nanosleep", "wait4", "recvmsg"):
+                continue
             killed_raw = "%s(%s)" % (name, args[:160])
             killed = canon.call(name, args, "0") or ("other", name, None)
+            killed_is_injected = injected is not None and name == injected
             continue
         c = canon.call(name, args, ret)
         if c is not None:
@@ -783,11 +791,21 @@ def one_kill(t, sc, canon, full, ref_obs, inject):
         tf = os.path.join(d, "trace.txt")
         cn = Canon(w, canon.labels)
         rc, err = t.strace(w, tf, inject=inject)
-        done, killed, raw, _ = parse_trace(tf, cn)
+        done, killed, raw, _ = parse_trace(tf, cn, injected=inject[0] if inject else None)
         was_killed = rc in (137, -9) or raw is not None
         if not was_killed:
             return {"inject": inject, "killed": False, "bad": [], "done": len(done)}
         ks = classes_of(done, killed, full)
+        # the same class decided on the STATE the kill left (robust against how the kernel / libc split a
+        # file copy into system calls and against which thread's in-flight call the log shows last): a
+        # workspace entry that holds a proper prefix of a cache object's bytes is a copy cut short
+        post = observe(w)
+        objbytes = [bytes.fromhex(v[3]) for v in post["objs"].values() if v[0] == "F" and v[3] not in ("!", "?")]
+        for pth, e in post["ws"].items():
+            if e[0] == "F" and e[2] not in ("!", "?"):
+                wb = bytes.fromhex(e[2])
+                if any(len(wb) < len(ob) and ob.startswith(wb) for ob in objbytes) and "crash-during-workspace-copy" not in ks:
+                    ks.append("crash-during-workspace-copy")
         bad, loads = judge(t, w, ref_obs, sc)
         return {"inject": inject, "killed": True, "call": raw, "canon": killed, "done": len(done), "classes": ks,
                 "bad": [(cl, what, classify(cl, ks)) for cl, what in bad], "loads": loads}
